@@ -70,6 +70,9 @@ func rangedProfile(doc any) (string, bool) {
 }
 
 func (c14) Run(c *fw.Case) {
+	if c.Idx%6 == 5 {
+		failedCalls(c) // call history: failed calls before the case must leave nothing behind
+	}
 	r := c.R
 	var s *jsonschema.Schema
 	var docText string
@@ -103,6 +106,29 @@ func (c14) Run(c *fw.Case) {
 		r.Shuffle(len(dynInsts), func(i, j int) { dynInsts[i], dynInsts[j] = dynInsts[j], dynInsts[i] })
 		if len(dynInsts) > 8 {
 			dynInsts = dynInsts[:8]
+		}
+	} else if c.Idx%7 == 6 {
+		// uniqueItems on long, mostly unique arrays with hash-colliding unequal items: every Validate call hashes under a fresh
+		// seed, so a verdict that depends on the order inside a run of equal hashes changes between repetitions / processes
+		var doc any = map[string]any{"uniqueItems": true}
+		wrapI := func(v any) any { return v }
+		switch r.IntN(3) {
+		case 0:
+			doc = map[string]any{"properties": map[string]any{"o": doc}}
+			wrapI = func(v any) any { return map[string]any{"o": v} }
+		case 1:
+			doc = map[string]any{"items": doc}
+			wrapI = func(v any) any { return []any{v, []any{}} }
+		}
+		docText = gen.Text(doc)
+		var err error
+		var ok bool
+		s, err, ok = unmarshalSchema(c, []byte(docText))
+		if !ok || err != nil {
+			return
+		}
+		for k := 0; k < 6; k++ {
+			dynInsts = append(dynInsts, wrapI(longUniqueModel(r)))
 		}
 	} else if c.Idx%5 == 3 {
 		// overlapping patternProperties: several patterns match the same name, each with its own small constraint; the
